@@ -231,6 +231,14 @@ def install(M, job):
 def collect(lian, job):
     out = {"events": EVENTS, "frames": len(_frames), "nodes": len(_nodes)}
     try:
+        # the size of the abstract state space the run produced (rows of semantic_p3/s2space_p3): a deterministic measure of work inside the steps
+        import os
+        import pandas as pd
+        d = os.path.join(os.path.abspath(lian.options.workspace), "semantic_p3")
+        out["states_p3"] = int(sum(len(pd.read_feather(os.path.join(d, f))) for f in os.listdir(d) if f.startswith("s2space_p3.bundle"))) if lian is not None else -1
+    except Exception:
+        out["states_p3"] = -1
+    try:
         from lian.config import config
         out["config"] = {"MAX_ROUND_P2": int(config.MAX_ANALYSIS_ROUND_FOR_PRELIM_ANALYSIS),
                          "MAX_ROUND_P3": int(config.MAX_ANALYSIS_ROUND_FOR_GLOBAL_ANALYSIS),
